@@ -237,6 +237,8 @@ def stream_stored(ctx, res, n):
             ("bad-method", {"method": "rot13", "ciphertext": good_aes}), ("bad-method", {"method": "AES", "ciphertext": good_aes}),
             ("bad-method", {"method": 5, "ciphertext": good_aes}), ("bad-method", {"method": True, "ciphertext": good_aes}),
             ("bad-ct-type", {"method": "aes"}), ("bad-ct-type", with_ct(None)), ("bad-ct-type", with_ct(5)), ("bad-ct-type", with_ct([good_aes])),
+            ("bad-ct-type", with_ct(good_aes.encode())), ("bad-ct-type", with_ct(bytearray(good_aes.encode()))),
+            ("bad-ct-type", {"method": "xor", "ciphertext": base64.b64encode(b"abc")}), ("bad-ct-type", with_ct(1.5)), ("bad-ct-type", with_ct(True)),
             ("bad-b64", with_ct("A")), ("bad-b64", with_ct("AAAAA")), ("bad-b64", with_ct("QQ=")), ("bad-b64", with_ct("Q")),
             ("bad-b64", {"method": "xor", "ciphertext": "A"}), ("bad-b64", with_ct("é" + good_aes)),
             ("short-aes", with_ct("")), ("short-aes", with_ct(base64.b64encode(raw[:31]).decode())), ("short-aes", with_ct(base64.b64encode(raw[:16]).decode())),
@@ -258,7 +260,12 @@ def stream_stored(ctx, res, n):
                 out = ("err", type(e).__name__)
             if (kind, st) in shapes and out[0] != "err":
                 res.violate(None, "malformed stored secret (%s) returned a value" % kind, dict(case, got=out[1]))
-            reqs.append({"cmd": "secure.topython", "key": key.hex(), "stored": enc_tree(st)})
+            try:
+                w = enc_tree(st)
+            except TypeError:          # bytes-like parts are not plain data: implementation-side oracle only
+                case["stored"] = repr(st)
+                continue
+            reqs.append({"cmd": "secure.topython", "key": key.hex(), "stored": w})
             pend.append(("tp", case, out))
     replies = ctx.model(reqs)
     if replies is not None:
